@@ -26,6 +26,8 @@ def run_impl(case, env):
 
 
 def model_requests(case, obs):
+    if obs.get("runaway"):
+        obs = {k: v for k, v in obs.items() if k != "transfers"}   # an endless trace is not sent to the driver
     return [T.model_request(T.strip_meta(case), obs)]
 
 
@@ -34,6 +36,11 @@ def make_judge(required, project, need_request_port=True, extra=None, nontrivial
         v = T.SessionView(case, obs, resps[0])
         meta = case.get("_meta", {})
         kind = f"{v.kind}/{meta.get('style', '-')}/{meta.get('handler', '-')}"
+        if obs.get("runaway"):
+            # the transfer never ends (stopped by the simulation after far more receive opportunities than any
+            # transfer may use): violates "always ends" (C02) and "every transfer ends its thread" (C20)
+            return Judgement(case, False, False, {"runaway": True, "impl_trace_tail": (obs.get("transfers") or [[]])[0][-12:]},
+                             kind=kind, nontrivial=True, failed_clause="transfer_never_ends")
         if v.infra:
             # harness trouble is reported as a mismatch with the reason, never as a spec failure
             return Judgement(case, True, False, {"infrastructure": v.infra}, kind="infra", nontrivial=False)
